@@ -77,6 +77,21 @@ func OriginalModule(m Meta) *Module {
 	}
 }
 
+// NamespaceModule is the module whose name and namespace a definition carries in data: the
+// module it was defined in or, when that is a submodule, the module the submodule belongs to
+// (a submodule has neither a namespace nor a name of its own in data, RFC7950 Sec 7.2)
+func NamespaceModule(m Meta) *Module {
+	mod := OriginalModule(m)
+	for mod.belongsTo != nil {
+		main, isModule := mod.Parent().(*Module)
+		if !isModule || main == nil || main == mod {
+			break
+		}
+		mod = main
+	}
+	return mod
+}
+
 func splitIdent(ident string) (string, string) {
 	i := strings.IndexRune(ident, ':')
 	if i < 0 {
